@@ -13,8 +13,8 @@ CHECKS = {
                 note='bounded: n<=2 (3), 2 atoms, ~1,300 path formulas (all of depth<=2, every unary chain of depth 3, n-ary and/or, seeded depth-3 ones), cost cut by number of elementary formulas e<=3 (4 at n=1); no raw (un-reduced) run possible for the tableau; /repo at fix commits dce0478+a1b7f49',
                 tech=SOLVER),
     'C03': dict(cat='model_checking', ref='4/C03',
-                text='CTLS.modelcheck incl. clone, fresh-atom labelling, CTL fast path, TypeError->LTL fallback and the E=not A not branch executed symbolically; per formula one merged run covers all total structures with n<=2 (3 thorough); z3 proves equality with the CTL* product oracle circuit. ~290 formulas with quantifier nesting <=2 incl. n-ary connectives under quantifiers.',
-                note='bounded: n<=2 (3), 2 atoms, formulas from stated sets (enumeration of programs); vacuity twin: some runs must encode the LTL fallback',
+                text='CTLS.modelcheck incl. clone, fresh-atom labelling, CTL fast path, TypeError->LTL fallback and the E=not A not branch executed symbolically; per formula one merged run covers all total structures with n<=2 (n=3 for two non-CTL formulas in quick, 42 formulas in thorough); z3 proves equality with the CTL* product oracle circuit. ~290 formulas with quantifier nesting <=2 incl. n-ary connectives under quantifiers.',
+                note='bounded: n<=2 (n=3 slice), 2 atoms, formulas from stated sets (enumeration of programs); vacuity twin: some runs must encode the LTL fallback',
                 tech=SOLVER),
     'C04': dict(cat='model_checking', ref='4/C04',
                 text='No oracle: two or three implementation runs share one symbolic structure and z3 proves their result vectors equal -- CTL vs CTLS on ~120 CTL formulas (n=3), LTL vs CTL vs CTLS on the common fragment (n=2), n-ary formulas over a third atom, text vs object input, and 16 CTL / 7 LTL law schemas (complement, and/or/implies, A g = not E not g, fixpoint expansions) over formula pairs (f,g) as identities between result vectors.',
